@@ -154,7 +154,8 @@ func c12Body(r *Run) {
 			r.Probe("positive-backoff-observed")
 		}
 		// R6
-		if attempts[k].start > ctxEnd && gap > 0 {
+		// (after a stall the timer and the context end look simultaneous to the process: not demanded then)
+		if attempts[k].start > ctxEnd && gap > 0 && r.Params["stalled"] == 0 {
 			r.Fail("C12.R6", "a retry was started after the message context had ended (positive back-off)", "retry %d started at %v, context ended at %v", k, attempts[k].start, ctxEnd)
 		}
 	}
@@ -186,6 +187,10 @@ func init() {
 		Setup: func(r *Run) simrt.Config {
 			c := BaseConfig()
 			c.Horizon = time.Minute
+			if r.T.Chance(1, 3) {
+				c.ClockJumps, c.JumpMax, c.JumpWithin = 3, 200*time.Millisecond, 60
+				r.Param("stalled", 1)
+			}
 			return c
 		},
 		Body:  c12Body,
